@@ -146,18 +146,12 @@ func (o *Optimizer) optimizeSelectExpressions(stmt *SelectStmt) {
 }
 
 func (o *Optimizer) findAggrFunc(expr Expression) bool {
-	switch e := expr.(type) {
-	case *BinaryOpExpr:
-		if o.findAggrFunc(e.Left) {
-			return true
-		}
-		if o.findAggrFunc(e.Right) {
-			return true
-		}
-	case *FunctionCallExpr:
-		return IsAggrFuncExpr(expr)
-	}
-	return false
+	found := false
+	walkAggrFuncs(expr, func(e *FunctionCallExpr, fname string) bool {
+		found = true
+		return false
+	})
+	return found
 }
 
 func (o *Optimizer) buildFinalPlan(s Storage, fp Plan, stmt *SelectStmt) (FinalPlan, error) {
